@@ -1,6 +1,7 @@
 import NeumannModel.Common.Proto
 import NeumannModel.Locks.Model
 import NeumannModel.Locks.CoordModel
+import NeumannModel.Locks.SectionModel
 /- Line-protocol driver for the lock-table / wait-for-graph model (C12). Stateful. -/
 open Neumann Neumann.Proto Neumann.Locks
 
@@ -10,11 +11,14 @@ structure DrvState where
   cfg : DetectorCfg
   lockCount : Option (List (Nat × Nat))
   co : Coord
+  /-- the critical-section model (`SectionModel.lean`): `early` = the guards are dropped before the edges are recorded -/
+  sec : Section.St
+  secEarly : Bool
 
 def drvInit : DrvState :=
   { t := LockTable.empty 3, g := WaitGraph.empty 0,
     cfg := { enabled := true, policy := .youngest, maxCycleLength := 100, cascadeDepth := 3 },
-    lockCount := none, co := Coord.init 3 100 }
+    lockCount := none, co := Coord.init 3 100, sec := Section.init 3 0 [], secEarly := false }
 
 def sortByKey {β : Type} (m : List (Nat × β)) : List (Nat × β) :=
   m.mergeSort (fun a b => a.1 ≤ b.1)
@@ -144,6 +148,39 @@ def parseCoOp : List String → Option CoOp
   | ["cdoom", tx] => tx.toNat?.map .doom
   | _ => none
 
+/-- thread programs of the section model: threads separated by `/`, shards by `;`, keys by `.`; `-` = no shard -/
+def parseProgs (s : String) : Option (List (List (List Nat))) :=
+  (s.splitOn "/").mapM fun th =>
+    if th = "-" then some [] else (th.splitOn ";").mapM parseDotted
+
+def pcImg : Section.Pc → String
+  | .prep sh => s!"prep{sh.length}"
+  | .granted _ => "granted"
+  | .adding bs _ => s!"adding{bs.length}"
+  | .ending hs => s!"ending{hs.length}"
+  | .cleaning _ hs => s!"cleaning{hs.length}"
+  | .done => "done"
+
+def secImg (s : Section.St) : String :=
+  tableImg s.t ++ " | " ++ graphImg s.g ++ " | X " ++ dotted (sortNats s.ended) ++
+  ";G " ++ (match s.guard with | some i => toString i | none => "-") ++
+  ";C " ++ ",".intercalate (s.ths.map fun th => pcImg th.pc)
+
+/-- is thread `i` at a call boundary (between two calls of its transaction life, or finished)? -/
+def atBoundary (s : Section.St) (i : Nat) : Bool :=
+  match s.ths[i]? with
+  | some th => (match th.pc with | .prep _ | .done => true | _ => false)
+  | none => true
+
+/-- run thread `i` from a call boundary to the next one (one whole `handle_prepare` / one whole end
+    of the transaction, no other thread in between); `none` = a step was refused -/
+def secCall (early : Bool) (s : Section.St) (i now : Nat) : Nat → Option Section.St
+  | 0 => none
+  | fuel + 1 =>
+    match Section.step early s i now with
+    | none => none
+    | some s' => if atBoundary s' i then some s' else secCall early s' i now fuel
+
 def lockCountFn (s : DrvState) : Option (Nat → Nat) :=
   s.lockCount.map fun tbl => fun tx => (aGet tbl tx).getD 0
 
@@ -264,6 +301,22 @@ def locksStep (s : DrvState) (line : String) : DrvState × String :=
       | some op => let (c', r) := costep s.co op
                    ({ s with co := c' }, showCoRes r ++ " | " ++ coordImg c')
       | none => bad
+  -- the critical-section model (`SectionModel.lean`)
+  | ["sinit", early, to, progs] => match early.toNat?, to.toNat?, parseProgs progs with
+      | some e, some to, some progs => ({ s with sec := Section.init to 0 progs, secEarly := e != 0 }, "ok")
+      | _, _, _ => bad
+  | ["sstep", i, now] => match i.toNat?, now.toNat? with
+      | some i, some now =>
+        (match Section.step s.secEarly s.sec i now with
+         | some st => ({ s with sec := st }, "ok | " ++ secImg st)
+         | none => (s, "refused"))
+      | _, _ => bad
+  | ["scall", i, now] => match i.toNat?, now.toNat? with
+      | some i, some now =>
+        (match secCall s.secEarly s.sec i now 10000 with
+         | some st => ({ s with sec := st }, "ok | " ++ secImg st)
+         | none => (s, "refused"))
+      | _, _ => bad
   | ["gvictim", cyc] => match parseDotted cyc with
       | some c => (s, toString (selectVictim s.cfg.policy s.g (lockCountFn s) c))
       | none => bad
